@@ -38,6 +38,7 @@ MECH_G = "stability-memo-entries-alias-one-mutable-pipeline"
 MECH_H = "manifold-memo-not-invalidated-when-generating-orbit-changes"
 MECH_I = "manifold-result-attribute-not-updated-when-compute-served-from-memo"
 MECH_J = "save-evaluates-every-dynamics-property-and-fails-when-one-raises"
+MECH_K = "reload-resurrects-computed-data-dropped-since-the-previous-load"
 
 MU_B = 0.05
 AMPS = (0.01, 0.02, 0.03)
@@ -244,6 +245,11 @@ class OrbitFamily:
                     and tw.compare(steps[n].real, steps[last_exec].real, 0.0)[0]
                     and tw.compare(steps[n].twin, steps[k].real, RTOL)[0]):
                 return k, MECH_B                  # attribute still holds the previously *executed* propagation
+        hist_ops = [self.ops[st.op] for st in steps[:k + 1]]
+        if (op.kind == "saveload" and sum(1 for o in hist_ops if o.kind == "saveload") >= 2
+                and isinstance(steps[n].twin, tw.Exc) and not isinstance(steps[n].real, tw.Exc)
+                and self.ops[steps[n].op].kind in ("trajectory", "read")):
+            return k, MECH_K                      # a second save/load brought back data the object had dropped after the first load
         return k, None
 
 
@@ -797,12 +803,18 @@ def orbit_workload(ctx, ex, env):
          "stability_indices", "energy", "jacobi", "monodromy"),
         ("correct_D", "set_period_half", "monodromy", "saveload", "period", "eigenvalues", "trajectory", "initial_state"),
         ("saveload", "period", "initial_state", "energy", "correct_D", "period", "initial_state"),
+        # load -> mutate (drops computed data) -> save -> load: nothing dropped in between may come back from the first file
+        ("correct_D", "propagate_30_adaptive8", "saveload", "set_period_half", "saveload", "trajectory", "period", "stability_indices"),
+        ("correct_D", "propagate_30_adaptive8", "stability_indices", "saveload", "set_period_P", "correct_D", "saveload", "trajectory", "period"),
     ]
     for _ in range(ctx.pick(0, 12)):
         cheap = ["period", "initial_state", "energy", "jacobi", "trajectory", "stability_indices", "eigenvalues", "set_period_half", "set_period_P"]
         a = walk(rng, letters, w, 3, 6, ("correct_D",))
         b = walk(rng, cheap, None, 3, 6)
-        sl.append(a + ("saveload",) + b + (("monodromy",) if rng.random() < 0.5 else ("propagate_30_adaptive8", "trajectory")))
+        tail = (("monodromy",) if rng.random() < 0.5 else ("propagate_30_adaptive8", "trajectory"))
+        if rng.random() < 0.5:
+            tail = ("saveload",) + walk(rng, cheap, None, 2, 4) + tail
+        sl.append(a + ("saveload",) + b + tail)
     for h in sl:
         work.append(("saveload", "guess", h))
     for i, (cls, start, h) in enumerate(work):
@@ -881,6 +893,9 @@ def manifold_workload(ctx, ex, env):
         work.append(("walk", walk(rng, letters, None, 8, 15)))
     work.append(("saveload", ("m.compute_A", "m.saveload", "m.trajectories", "m.result", "o.period")))
     work.append(("saveload", ("m.saveload", "m.trajectories", "o.period", "m.result")))
+    # load -> change the generating orbit (the manifold's data no longer belong to it) -> save -> load -> read
+    work.append(("saveload", ("m.compute_A", "m.saveload", "o.set_period_half", "m.saveload", "m.trajectories", "m.result", "o.period")))
+    work.append(("saveload", ("m.compute_A", "m.saveload", "m.compute_B", "m.saveload", "m.trajectories", "m.result")))
     seen = set()
     for i, (cls, h) in enumerate(work):
         if (cls, h) in seen:
